@@ -29,6 +29,16 @@
 // One CategoryFilter is constructed per line (rules parsed once), as an application would.
 // The category reaches the filter exactly as in production: as the `const char *category` of a
 // QMessageLogContext (UTF-8 bytes), read back through LogMessage::category().
+// FRONT END (round 8): the <rules> field may carry a prefix that says how the application OBTAINED the filter object:
+//   (none)            CategoryFilter f(rules)  - constructed directly;
+//   F:<rules>         SimplePipeline pipe; pipe.filterCategory(rules).handler(<capture>)  - the object the fluent
+//                     front end builds; the verdict of a message is whether the trailing handler was reached when
+//                     the message is passed through the pipeline (the message ITSELF, so that the storage modes
+//                     above keep their meaning: a filter does not change a message);
+//   F<earlier>:<rules> the same, after ANOTHER pipeline of the same process has requested
+//                     filterCategory(<earlier>) (hex UTF-16 as everywhere; it stays alive during the line): the
+//                     object a request yields must not depend on what was requested before.
+//   The front end must be transparent: the answers are those of the directly constructed filter.
 // argv[1] == "null": an empty category is passed as a null pointer instead of "".
 // argv[1] == "qt":   instead of CategoryFilter, Qt's own QLoggingCategory decides: the rules (';'
 //                    turned into newlines) go to QLoggingCategory::setFilterRules, a QLoggingCategory
@@ -44,6 +54,7 @@
 #include <cstdlib>
 #include <cstring>
 #include <iostream>
+#include <memory>
 #include <sstream>
 #include <string>
 #include <vector>
@@ -93,7 +104,34 @@ int main(int argc, char **argv)
             std::cout << o.str() << "\n";
             continue;
         }
-        CategoryFilter f(unhex16(r));
+        // how the filter object of this line is obtained (see FRONT END above)
+        bool fluent = false;
+        std::unique_ptr<SimplePipeline> earlierPipe, pipe;
+        bool reached = false;
+        if (!r.empty() && r[0] == 'F' && r.find(':') != std::string::npos) {
+            fluent = true;
+            const size_t colon = r.find(':');
+            const std::string earlier = r.substr(1, colon - 1);
+            r = r.substr(colon + 1);
+            if (!earlier.empty()) {
+                earlierPipe.reset(new SimplePipeline());
+                earlierPipe->filterCategory(unhex16(earlier)).handler([](LogMessage &) { return true; });
+            }
+            pipe.reset(new SimplePipeline());
+            pipe->filterCategory(unhex16(r)).handler([&reached](LogMessage &) { reached = true; return true; });
+        }
+        std::unique_ptr<CategoryFilter> direct(fluent ? nullptr : new CategoryFilter(unhex16(r)));
+        struct Asker {
+            CategoryFilter *direct; SimplePipeline *pipe; bool *reached;
+            bool filter(LogMessage &m) const
+            {
+                if (direct)
+                    return direct->filter(m);
+                *reached = false;
+                pipe->process(m);
+                return *reached;
+            }
+        } f{ direct.get(), pipe.get(), &reached };
         std::stringstream cl(cs);
         std::string c;
         if (!qs.empty() && !qtMode) {
